@@ -116,7 +116,7 @@ func flip(b []byte, i int, m byte) []byte {
 	return c
 }
 
-func mutantsOf(c *Ctx, o accountant.Vertex, other accountant.Vertex, stranger, sealer, iss *wallet.Wallet) []mutant {
+func mutantsOf(c *Ctx, o accountant.Vertex, other accountant.Vertex, stranger, sealer, iss *wallet.Wallet, known [32]byte) []mutant {
 	var ms []mutant
 	add := func(class string, f func(v *accountant.Vertex)) {
 		v := o
@@ -158,6 +158,11 @@ func mutantsOf(c *Ctx, o accountant.Vertex, other accountant.Vertex, stranger, s
 	add("vertex.weight+1", func(v *accountant.Vertex) { v.Weight++ })
 	add("vertex.left.bitflip", func(v *accountant.Vertex) { v.LeftParentHash[r%32] ^= 0x10 })
 	add("vertex.right.from-other", func(v *accountant.Vertex) { v.RightParentHash = other.Hash })
+	// re-wired to another vertex the receiving node HOLDS (a swapped-in unknown hash is parked or refused for the
+	// missing parent whatever the verification says)
+	add("vertex.right.rewired-to-known", func(v *accountant.Vertex) { v.RightParentHash = known })
+	add("vertex.left.rewired-to-known", func(v *accountant.Vertex) { v.LeftParentHash = known })
+	add("vertex.parents.swapped-with-known", func(v *accountant.Vertex) { v.LeftParentHash, v.RightParentHash = known, v.LeftParentHash })
 	add("vertex.hash.bitflip", func(v *accountant.Vertex) { v.Hash[r%32] ^= 0x01 })
 	add("vertex.sig.bitflip", func(v *accountant.Vertex) { v.Signature = flip(v.Signature, r, 8) })
 	add("vertex.sig.from-other", func(v *accountant.Vertex) { v.Signature = other.Signature })
@@ -217,6 +222,16 @@ func mutantsOf(c *Ctx, o accountant.Vertex, other accountant.Vertex, stranger, s
 	return ms
 }
 
+// genesisOf: the parentless vertex of a ledger
+func genesisOf(ab *accountant.AccountingBook) accountant.Vertex {
+	for _, gv := range ab.VerifSnapshot().Vertices {
+		if gv.LeftParentHash == [32]byte{} && gv.RightParentHash == [32]byte{} {
+			return gv
+		}
+	}
+	panic("no genesis vertex")
+}
+
 func init() {
 	sections["tamper"] = func(c *Ctx) error {
 		c.Rep.Rule = "valid vertices (plain transfer, contract with data, countersigned contract) x every mutation class of the quantifier (bit flips per field, truncation/extension, bytes moved across each adjacent field boundary, fields swapped between two valid vertices, signatures/addresses replaced or removed); each mutant verified by the real code and offered to a real node; non-trivial = distinct (base kind, mutation class)"
@@ -230,11 +245,21 @@ func init() {
 			rounds = 120
 		}
 		sealer := w.NewWallet()
+		// a second vertex in the ledger every receiving node syncs: something a parent link can be re-wired to
+		var second accountant.Vertex
+		{
+			t, _ := transaction.New("first", spice.Melange{Currency: 1}, nil, rec.Address(), recSigner{iss})
+			v, err := a.ab.CreateLeaf(w.ctx, &t)
+			if err != nil {
+				return fmt.Errorf("tamper: second vertex: %v", err)
+			}
+			second = v
+		}
 		var pending []string
 		var recv *Node
 		emit := func(format string, args ...interface{}) { pending = append(pending, fmt.Sprintf(format, args...)) }
 		for round := 0; round < rounds; round++ {
-			gen := a.ab.VerifSnapshot().Vertices[0]
+			gen := genesisOf(a.ab)
 			mk := func(kind string) accountant.Vertex {
 				var t transaction.Transaction
 				switch kind {
@@ -257,7 +282,7 @@ func init() {
 				if err := accountant.VerifVerifyVertex(&o, w.ver); err != nil {
 					return fmt.Errorf("base vertex %s does not verify: %v", kind, err)
 				}
-				cases := append([]mutant{{"original", o, false}}, mutantsOf(c, o, other, stranger, sealer, iss)...)
+				cases := append([]mutant{{"original", o, false}}, mutantsOf(c, o, other, stranger, sealer, iss, second.Hash)...)
 				for _, m := range cases {
 					// the receiving node is replaced as soon as anything changed it: nothing a previous
 					// mutant did can interfere (and a rejected mutant must leave it as it was)
@@ -311,7 +336,7 @@ func init() {
 		}
 		// a wallet sealing its own transfer under a re-encoded (other version byte) address of itself
 		{
-			gen := a.ab.VerifSnapshot().Vertices[0]
+			gen := genesisOf(a.ab)
 			t, _ := transaction.New("self", spice.Melange{Currency: 2}, nil, rec.Address(), recSigner{iss})
 			for vi, ver := range []byte{0, 1, 0xff, 0, 0} {
 				alias := altAddress(iss.Public, ver)
@@ -350,7 +375,7 @@ func init() {
 		for round := 0; round < 3; round++ {
 			b := w.NewNode()
 			w.syncFrom(a, b)
-			gen := a.ab.VerifSnapshot().Vertices[0]
+			gen := genesisOf(a.ab)
 			pt, _ := transaction.New("parent", spice.Melange{Currency: 2}, nil, rec.Address(), recSigner{iss})
 			parent, _ := accountant.NewVertex(pt, gen.Hash, gen.Hash, 51, recSigner{sealer})
 			ct, _ := transaction.New("child", spice.Melange{Currency: 1}, []byte("x"), rec.Address(), recSigner{iss})
